@@ -178,19 +178,43 @@ def run_scenario(spec: dict) -> dict:
     orig_pause, orig_resume, orig_scale = ptime.pause, ptime.resume, ptime.set_time_scale
     tc = ptime.get_global_time_controller()
 
+    # timeline: raw (virtual) instants of the clock operations and of the uptime checks, for C08's arithmetic
+    timeline = []
+
+
     def logged_pause():
         S.mark("clock_pause")
         orig_pause()
+        timeline.append(["pause", sched.now, len(sched.trace)])
 
     def logged_resume():
         S.mark("clock_resume")
         orig_resume()
+        timeline.append(["resume", sched.now, len(sched.trace)])
 
     def logged_scale(k):
         S.mark("clock_scale", k)
         orig_scale(k)
+        timeline.append(["scale", sched.now, len(sched.trace), k])
 
     ptime.pause, ptime.resume, ptime.set_time_scale = logged_pause, logged_resume, logged_scale
+
+    orig_uptime = control_mod.ControlThread.is_max_uptime_reached
+    orig_ctl_start = control_mod.ControlThread.on_start
+
+    def logged_uptime(self):
+        raw = sched.now
+        r = orig_uptime.fget(self)
+        timeline.append(["check", raw, len(sched.trace), bool(r)])
+        S.mark("uptime", bool(r))
+        return r
+
+    def logged_ctl_start(self):
+        orig_ctl_start(self)
+        timeline.append(["start", sched.now, len(sched.trace)])
+
+    control_mod.ControlThread.is_max_uptime_reached = property(logged_uptime)
+    control_mod.ControlThread.on_start = logged_ctl_start
     orig_save = StateStore.save_state
 
     def logged_save(self):
@@ -234,7 +258,7 @@ def run_scenario(spec: dict) -> dict:
     old_delay = PThread.LOOP_DELAY
     PThread.LOOP_DELAY = spec.get("loop_delay", 0.001)
     tmp = tempfile.mkdtemp(prefix="pamiq_sim_")
-    result: dict = {"outcome": None}
+    result: dict = {"outcome": None, "timeline": timeline}
     done = {"launch": False}
 
     # name the events by role once the objects exist (ThreadController / ThreadStatus are created in launch)
@@ -336,6 +360,8 @@ def run_scenario(spec: dict) -> dict:
     finally:
         ptime.pause, ptime.resume, ptime.set_time_scale = orig_pause, orig_resume, orig_scale
         StateStore.save_state = orig_save
+        control_mod.ControlThread.is_max_uptime_reached = orig_uptime
+        control_mod.ControlThread.on_start = orig_ctl_start
         tcm.ThreadController.__init__, tcm.ThreadStatus.__init__ = orig_tc_init, orig_ts_init
         PThread.LOOP_DELAY = old_delay
         control_mod.WebApiServer = WebApiServer
